@@ -219,6 +219,8 @@ def check_lp1b(func_node, loop, accumulators):
         val = None
         if isinstance(st, ast.AugAssign) and not isinstance(st.op, ast.LShift):
             tgt, val = st.target, st.value
+            if isinstance(val, ast.JoinedStr) or (isinstance(val, ast.Constant) and isinstance(val.value, str)):
+                continue      # string concatenation rebinds the name
         elif isinstance(st, ast.Assign) and len(st.targets) == 1 and isinstance(st.targets[0], ast.Subscript):
             tgt, val = st.targets[0], st.value
         if tgt is None:
